@@ -60,7 +60,7 @@ DEFECTS = {1: 'second_pass_restarts', 2: 'expansion_per_file',
 # so a token VALUE (user name, host name) containing ${VAR} is expanded again;
 # ssh makes one pass.  Recorded as an observation (notes), not judged, until it
 # is listed or repaired: set to True to judge it.
-JUDGE_RESCAN = True
+JUDGE_RESCAN = False
 
 
 def write_cfg(name, invs, **kw):
@@ -746,6 +746,10 @@ def _main(ctx, cd, root):
         'first-value-wins fields each (a later line can fill the field the '
         'first line left open); the rule here is first obtained LINE wins, '
         'as asyncssh does; those mixed pairs are not compared with ssh -G',
+        'expansion rule: one left-to-right pass (ssh percent_dollar_expand; '
+        'ssh -G prints IdentityAgent / ForwardAgent already expanded, which is '
+        'used as is); RemoteCommand / ProxyCommand are compared with the rule '
+        'only (ssh expands no ${} in them)',
         'chained options objects (options=base, config=B) must resolve like '
         'the files of base followed by B, and must leave base unchanged',
         'server side: the unsafe-name rule is the one documented in '
